@@ -11,6 +11,7 @@ fail=0
 for id in $ids; do
   d=/verif/seeded/$id
   [ -f $d/patch.diff ] || continue
+  if [ "$(jq -r '.neutralised // empty' $d/meta.json)" != "" ]; then echo "$id: neutralised by a later repair (see meta.json); skipped"; continue; fi
   if ! git -C /repo apply --check $d/patch.diff 2>/dev/null; then
     if git -C /repo apply --3way $d/patch.diff >/dev/null 2>&1 && [ -z "$(git -C /repo diff --name-only --diff-filter=U)" ]; then
       git -C /repo diff HEAD > $d/patch.diff.new; git -C /repo reset -q --hard HEAD
